@@ -119,6 +119,20 @@ impl ReadLine for CustomReader {
     }
 }
 
+/// Flushes both writers when `res` is an error,
+/// so that everything written before the error is still shown.
+pub fn flush_on_err<T>(
+    res: Result<T, Error>,
+    out: &mut impl Write,
+    err: &mut impl Write,
+) -> Result<T, Error> {
+    if res.is_err() {
+        out.flush().unwrap();
+        err.flush().unwrap();
+    }
+    res
+}
+
 /// Read line from `ReadLine`
 pub fn read_line_from(input: &mut impl ReadLine) -> Result<String, Error> {
     input.read_line_()
